@@ -61,7 +61,7 @@ fn fspan(s: Seg) -> FragmentSpan {
     )
 }
 
-//@ harness: o10_5_contacts_step props=C10,C05 tier=thorough obl=O10.5 timeout=3400 mem=20
+//@ harness: o10_5_contacts_step props=C10,C05 tier=stretch obl=O10.5 timeout=3400 mem=20
 //@ desc: two contact groups of 1..2 axis-parallel lattice lines each (8x8 quarter-unit window at a cell offset <= 3x3): Contacts::is_contacting(a,b) <=> some line of a touches some line of b (an endpoint of one lies on the other, integer oracle); in particular groups none of whose lines touch are never joined, wherever they are
 //@ encodes: Contacts::is_contacting, Contacts::is_contacting_frag, FragmentSpan::is_contacting, Fragment::is_contacting, Line::is_touching
 #[kani::proof]
